@@ -88,8 +88,9 @@ def _function(fd: ast.FunctionDef):
     return {"args": params, "e": e, "poly": _poly(e)}
 
 
-def library(repo: Path) -> tuple[dict, dict]:
-    """-> (supported {name: entry}, unsupported {name: reason})"""
+def library(repo: Path, strict: bool = True) -> tuple[dict, dict]:
+    """-> (supported {name: entry}, unsupported {name: reason}); with `strict` the REQUIRED functions must
+    all be inside the supported subset"""
     src = (Path(repo) / "src" / "mxlpy" / "fns.py").read_text()
     tree = ast.parse(src)
     ok, bad = {}, {}
@@ -100,7 +101,7 @@ def library(repo: Path) -> tuple[dict, dict]:
             except Unsupported as e:
                 bad[node.name] = str(e)
     missing = [n for n in REQUIRED if n not in ok]
-    if missing:
+    if missing and strict:
         raise Unsupported(f"library functions outside the supported subset: { {m: bad.get(m, 'absent') for m in missing} }")
     return ok, bad
 
